@@ -181,8 +181,9 @@ class ValidationContext:
         for attr in iter_class_slots(self):
             setattr(context, attr, getattr(self, attr))
 
-        context.errors = self.errors.copy()
-        context.id_map = self.id_map.copy()
+        # The collected errors and the ID map are accumulators of the whole run:
+        # a scoped copy (inherited attributes, validation mode changed by a hook)
+        # shares them, otherwise what is collected below the copy point is lost.
         context.identities = self.identities.copy()
         context.inherited = self.inherited.copy()
         context.id_list = self.id_list if self.id_list is None else self.id_list.copy()
